@@ -112,6 +112,7 @@ Definition holds_dur (c : d_case) : bool :=
 (* ------------------------------------------------------------------ TableLookup *)
 Inductive tcall :=
 | TCall (tbl : list Qc) (cycles : Qc) (freq phase : arg) (k : nat)
+| TCallF (tbl : list Qc) (cycles cl : Qc) (freq phase : arg) (k : nat)   (* int / float cycles: cl observed *)
 | TGet (tbl : list Qc) (idx : Qc)
 | TBinTT (o : binop) (t1 : list Qc) (c1 : Qc) (t2 : list Qc) (c2 : Qc)
 | TBinTS (o : binop) (t1 : list Qc) (c1 : Qc) (x : Qc)
@@ -134,6 +135,7 @@ Definition tobs_eqb (a b : tobs) : bool :=
 Definition run_tcall (c : tcall) : tobs :=
   match c with
   | TCall tbl cycles freq phase k => let r := table_call tbl cycles freq phase k in ORes (fst r) (snd r)
+  | TCallF tbl cycles cl freq phase k => let r := table_call_cl tbl cl freq phase k in ORes (fst r) (snd r)
   | TGet tbl idx => match table_getitem tbl idx with
                     | Some v => OVal v
                     | None => OErr (if (length tbl =? 0)%nat then "ZeroDivisionError" else "IndexError")
@@ -146,7 +148,15 @@ Definition run_tcall (c : tcall) : tobs :=
   | TNorm t1 c1 => tres_obs (table_normalize t1 c1)
   | THarm t1 c1 h => tres_obs (table_harmonize t1 c1 h)
   end.
-Definition corr_table (c : t_case) : bool := tobs_eqb (run_tcall (t_call c)) (t_obs c).
+(* the observed float constant is len/(cycles*2*pi) up to the rounding of one float product and one float
+   quotient (relative 2^-50 is generous) *)
+Definition cl_plausible (tbl : list Qc) (cycles cl : Qc) : bool :=
+  let len := nq (length tbl) in
+  let den := cycles * (1 + 1) * pi_fl in
+  Qc_leb (Qc_abs (cl * den - len)) (len * qc 1 1125899906842624).
+Definition corr_table (c : t_case) : bool :=
+  tobs_eqb (run_tcall (t_call c)) (t_obs c)
+  && match t_call c with TCallF tbl cycles cl _ _ _ => cl_plausible tbl cycles cl | _ => true end.
 
 (* pointwise check of a binary operator result (None entries = the operator raised) *)
 Fixpoint pointwise (f : nat -> option Qc) (i : nat) (r : list Qc) : bool :=
@@ -162,6 +172,8 @@ Definition holds_table (c : t_case) : bool :=
   | TCall tbl cycles freq phase k, ORes l e =>
       if Qc_is0 (cycles * (1 + 1) * pi_fl) then true
       else res_eqb (table_call_spec tbl cycles freq phase k) (l, e)
+  | TCallF tbl cycles cl freq phase k, ORes l e =>
+      cl_plausible tbl cycles cl && res_eqb (table_call_spec_cl tbl cl freq phase k) (l, e)
   | TGet tbl idx, OVal v =>
       if Qc_leb 0 idx then Qc_eqb v (cyc_lerp tbl idx) else true
   | TGet tbl idx, OErr _ => (length tbl =? 0)%nat
